@@ -320,8 +320,37 @@ theorem closeAgent_parked {s : MState} (h : Parked s) : Parked (closeAgent s) :=
   · exact parked_of_jobs h3 rfl
   · exact h3
 
+theorem acceptGather_parked {s : MState} (h : Parked s) : Parked (acceptGather s).1 := by
+  simp only [acceptGather]
+  split
+  · exact parked_of_jobs h rfl
+  · exact h
+  · exact h
+
+theorem startCycle_parked {s : MState} (h : Parked s) (cg : Option (Nat × Nat)) : Parked (startCycle s cg) := by
+  simp only [startCycle]
+  split
+  · exact h
+  · split
+    · exact parked_of_jobs h rfl
+    · refine parked_of_jobs (runCycleUnits_parked ?_ _ _) (finishCycle_jobs _)
+      exact parked_of_jobs h rfl
+
+theorem restartOp_parked {s : MState} (h : Parked s) : Parked (restartOp s).1 := by
+  simp only [restartOp]
+  split
+  · refine resume_parked ?_ _
+    exact parked_of_jobs h rfl
+  · exact h
+
 theorem step_parked {s : MState} (h : Parked s) (op : Op) : Parked (step s op).1 := by
   cases op with
+  | gather2 =>
+    simp only [step]
+    exact startCycle_parked (startCycle_parked (acceptGather_parked (acceptGather_parked h)) _) _
+  | grg =>
+    simp only [step]
+    exact startCycle_parked (startCycle_parked (acceptGather_parked (restartOp_parked (acceptGather_parked h))) _) _
   | gather =>
     simp only [step]
     split
